@@ -463,6 +463,19 @@ class SymReal:
     def __trunc__(self):
         return SymReal(z3.If(self.t >= 0, z3.ToReal(z3.ToInt(self.t)), -z3.ToReal(z3.ToInt(-self.t))))
 
+    def __round__(self, nd=None):
+        # round(x, nd): the nearest multiple of 10^-nd (a tie may go either way: real arithmetic, the binary representation of x is not modelled)
+        c = ctx()
+        k = z3.Int(f'round!{c.fresh_real("r").decl().name()}')
+        scale = 10 ** int(nd or 0)
+        sc = z3.RealVal(scale) if scale >= 1 else z3.Q(1, 10 ** (-int(nd)))
+        c.add_side(self.t * sc - z3.ToReal(k) <= z3.Q(1, 2))
+        c.add_side(self.t * sc - z3.ToReal(k) >= -z3.Q(1, 2))
+        return SymReal(z3.ToReal(k) / sc)
+
+    def round(self, nd=0):      # numpy object-array hook (np.round / np.around)
+        return self.__round__(nd)
+
     # numpy object-array ufunc hooks ------------------------------------------------------------
     def log(self):
         return apply_uf('log', self)
